@@ -659,6 +659,10 @@ def stream_api(c, SI, entries, N, out):
                 c.broken_no_input('corr:api-error-class', '%s rejects incompatible operands with %s instead of a TypeError' % (name, type(rexc).__name__), dict(replay, exc=repr(rexc)[:300]))
             continue
         if rexc is not None:
+            try: call(*[v.copy() if isinstance(v, numpy.ndarray) else v for v in plain]); pexc = None
+            except Exception as e: pexc = e
+            if type(pexc) is type(rexc):
+                c.count('api:plain-computation-raises-too'); continue
             nfail += 1; failed_functions.add(name)
             sig = 'dispatch:curvature-not-unwrapped' if name == 'nutils.function.curvature' and isinstance(rexc, RecursionError) else 'dispatch-raises:%s:%s' % (sig_fn, type(rexc).__name__)
             what = ('function.curvature on a dimensional geometry never returns: handler passes the wrapped Quantity back to the dispatching function (RecursionError)'
@@ -866,7 +870,7 @@ def stream_units(c, SI, defs, N):
     npar = 0
     for (tag, s_, sd, sv), m in zip(cases, ans):
         kind, rd, rv = real_parse(SI, s_)
-        if m == 'err|range' or kind == 'err' and rd == 'OverflowError' or kind == 'ok' and (rv == 0 or abs(rv) == float('inf')) and not m.startswith('ok|') or \
+        if m == 'err|range' or kind == 'err' and rd == 'OverflowError' or kind == 'err' and rd == 'zeroDiv' and m != 'err|zeroDiv' and re.search(r'[0-9]{2}', s_) or kind == 'ok' and (rv == 0 or abs(rv) == float('inf')) and not m.startswith('ok|') or \
                 m.startswith('ok|') and F(m.split('|')[2]) != 0 and not (F(1, 10 ** 250) < abs(F(m.split('|')[2])) < 10 ** 250):
             c.count('parse:skipped-float-range'); continue
         c.case(('parse', s_), nontrivial=len(s_) > 1); c.count('parse:%s:%s' % (tag, kind if kind == 'ok' else rd))
@@ -898,7 +902,7 @@ def stream_units(c, SI, defs, N):
             r = D(u); real = ('ok', canon(dim_of(SI, r)), unwrap(SI, r))
         except Exception as e: real = ('err', exc_name(e), None)
         replay = dict(stream='construct', dim=pows_str(qd), unit=u, real=repr(real), model=ans[len(fcases) + i])
-        if real[:2] == ('err', 'OverflowError') or 'err|range' in (ans[len(fcases) + i], ans[i]):
+        if real[:2] == ('err', 'OverflowError') or 'err|range' in (ans[len(fcases) + i], ans[i]) or (real[:2] == ('err', 'zeroDiv') and m[:2] != ['err', 'zeroDiv'] and re.search(r'[0-9]{2}', u)):
             c.count('construct:skipped-float-range'); continue
         c.count('construct:' + (real[0] if real[0] == 'ok' else real[1]))
         okm = (real[0] == 'ok' and m[0] == 'ok' and real[1] == pows_parse(m[1]) and close_rel(real[2], F(m[2]), 1e-11)) or (real[0] == 'err' and m[0] == 'err' and real[1] == m[1])
@@ -1304,6 +1308,11 @@ def stream_compositions(c, SI, N):
                     nbad += 1; c.broken_no_input('corr:composition-error', 'mixed dimensions rejected with %s' % type(rexc).__name__, dict(replay, exc=repr(rexc)[:200]))
                 continue
             if rexc is not None:
+                # the same computation on the plain numbers may raise as well (0.0 ** -1): then raising the same exception is the correct outcome
+                try: tree_eval(SI, t, list(vals), leafdims, False); pexc = None
+                except Exception as e: pexc = e
+                if type(pexc) is type(rexc):
+                    c.count('compose:plain-computation-raises-too'); continue
                 nbad += 1; c.failing_input('composition:raises:' + type(rexc).__name__, 'a dimensionally consistent expression raises', dict(replay, exc=repr(rexc)[:300])); continue
             if canon(dim_of(SI, r)) != spec[1]:
                 nbad += 1; c.failing_input('composition:wrong-dimension', 'dimension of a composed expression differs from exact arithmetic on the exponents', dict(replay, real=pows_str(dim_of(SI, r)))); continue
@@ -1400,7 +1409,7 @@ def stream_unitpy(c, N):
             k = rng.random()
             if k < .5: reqs.append(('p', s_))
             elif k < .75: reqs.append(('c', s_))
-            else: reqs.append(('l', gen_unitpy_string(rng, names).lstrip('0123456789.'), s_))
+            else: reqs.append(('l', gen_unitpy_string(rng, names).lstrip('0123456789.*'), s_))
         systems.append((defs, reqs))
     enc = lambda defs: ';'.join('%s=%s' % (k, '~' + v if isinstance(v, str) else rat(v)) for k, v in defs.items())
     ans = yield ['usys|%s|%s' % (enc(defs), ';'.join('~'.join(r) for r in reqs)) for defs, reqs in systems]
@@ -1593,10 +1602,30 @@ def _run(c):
     import os
     from nutils import SI
     quick = c.tier == 'quick'
-    c.rule = 'TODO'
+    c.rule = ('exponent vectors: sparse dicts over 17 base symbols (SI symbols and admissible exotic ones: digits/underscore inside, Greek) with exponents from 20 rationals '
+              '(integers, halves, thirds, 5/7, 11/13, 100/3, …), operands correlated so that cancellations occur; names: random strings over a 16-symbol alphabet of '
+              'letters, digits, _ * /; handlers: every handler function called with 0-4 arguments that are quantities of 3 dimensions or plain (agreement frequent), '
+              'recording stub as wrapped function; public API: every classified function called with same / free / partly plain operand dimensions on dyadic data, '
+              'result dimension vs law, value vs plain recomputation, and again after rescaling all reference units by 16; compositions: expression trees of depth ≤ 3 over '
+              'numpy arrays and nutils function arrays; unit strings: generated from the documented grammar (number, prefix, unit, integer and fractional powers, * and /) with '
+              'their meaning known by construction, plus single-character corruptions; format specs: precision/width/grouping × generated units; Units.__setattr__: definition '
+              'sequences over 24 colliding names; unit.py: random unit systems from 10 base and 21 derived definitions (ambiguous prefix/unit names, cycles, unknown units). '
+              'A case is non-trivial when it involves at least one dimensional operand / non-empty string; distinct by its full data')
+    c.assumptions += [
+        'trusted specification: the law table `lawOf` (which homogeneity law each dispatched NumPy/nutils function obeys) and the SI table `siSpec` in Model/C20.lean',
+        'values are exact rationals in the model; Python floats are compared exactly where the computation is the same sequence of float operations '
+        '(value commutes with unwrapping; rescaling by powers of two) and with relative tolerance 1e-11/1e-12 where decimal prefixes (1e-3, …) or nutils simplification reorder float operations',
+        'float formatting of Quantity.__format__ is not modelled (token level round trip); the harness checks the real text against Python formatting of the plain quotient and the round trip within the printed precision',
+        'keyword arguments of dispatched functions are outside the model (handlers forward them unchecked); three unit-dependence findings about them are recorded as known findings',
+        'irrational values (fractional power of a value that is not a perfect power) and exponents beyond ±4096 are not given a value by the model: dimension only / skipped (counted)',
+        'Dimension.from_powers with base symbols that Dimension.create rejects (empty, containing * or /, ending in a digit or underscore) is outside the property: the name cache collides for them (noted in notes/C20.md)',
+        'operator == / != between quantities of different dimension fall back to Python identity (False / True) instead of raising; accepted as sound (no number is compared)']
+    c.trusted += ['trusted spec tables lawOf / siSpec / prefixes (Model/C20.lean), hand-written']
     entries = extract_dispatch(SI)
     defs, unsupported = extract_unit_defs(SI)
     c.write_generated('C20.lean', generated_text(entries, defs))
+    if unsupported:
+        c.extra['unsupported_unit_definitions'] = unsupported
     broken = [] if os.environ.get('NVH_DEV_SKIP_BUILD') else c.build_and_audit()
     c.log('lean build + audit done')
     out = {}
